@@ -290,6 +290,8 @@ impl ConfigWatched {
 		let notified = self.notify.notified();
 		let mut notified = pin!(notified);
 		notified.as_mut().enable();
+		#[cfg(watchexec_verif)]
+		watchexec_supervisor::verif::emit("cfg_wait", usize::from(self.first_run), 0);
 
 		if self.first_run {
 			trace!("ConfigWatched: first run");
